@@ -240,6 +240,23 @@ theorem set_contains_order_free (es₁ es₂ : List Entry) (f : Fam) (k : Nat)
     · rintro ⟨a, b, h, hp⟩; exact ⟨a, b, (hm _).mp h, hp⟩
     · rintro ⟨a, b, h, hp⟩; exact ⟨a, b, (hm _).mpr h, hp⟩
 
+/-- **Adding entries only widens, removing only narrows.** A source admitted
+by a list is admitted by every list that holds at least the same entries. -/
+theorem set_contains_mono (es₁ es₂ : List Entry) (f : Fam) (k : Nat)
+    (hsub : ∀ e, e ∈ es₁ → e ∈ es₂) (hok : ∀ e ∈ es₂, EntryOk e)
+    (h : (Set.new es₁).contains f k = true) : (Set.new es₂).contains f k = true := by
+  have hok1 : ∀ e ∈ es₁, EntryOk e := fun e he => hok e (hsub e he)
+  have h4 : (Set.new es₁).contains Fam.v4 k = true → (Set.new es₂).contains Fam.v4 k = true := by
+    rw [set_contains_v4_iff es₁ k hok1, set_contains_v4_iff es₂ k hok]
+    rintro ⟨a, b, hm, hp⟩; exact ⟨a, b, hsub _ hm, hp⟩
+  cases f with
+  | v4 => exact h4 h
+  | mapped => rw [mapped_counts_as_v4] at h ⊢; exact h4 h
+  | v6 =>
+    rw [set_contains_v6_iff es₁ k hok1] at h
+    rw [set_contains_v6_iff es₂ k hok]
+    obtain ⟨a, b, hm, hp⟩ := h; exact ⟨a, b, hsub _ hm, hp⟩
+
 -- non-vacuity: 10.0.0.0/8 nested over 10.1.0.0/16, listed in either order and once more
 example : (∀ e, e ∈ [some (Fam.v4, 0x0a000000, 8), some (Fam.v4, 0x0a010000, 16)] ↔
       e ∈ [some (Fam.v4, 0x0a010000, 16), some (Fam.v4, 0x0a000000, 8), some (Fam.v4, 0x0a010000, 16)]) ∧
